@@ -405,7 +405,36 @@ def validate_trace(trace_path, name, module="ConcTrace"):
     raise ToolError("trace validation failed to run (%s)" % name)
 
 
+CHUNK_LINES = int(os.environ.get("VF_CHUNK_LINES", "120000"))
+
+
 def validate_all(trace_path, name, max_viol=5, module="ConcTrace", boundary='"reset"'):
+    """Validate a concatenation of executions; long concatenations are cut at execution boundaries into pieces of
+    at most CHUNK_LINES events, each validated by its own TLC run (the trace specifications reset at a boundary)."""
+    lines = open(trace_path).read().splitlines()
+    if len(lines) <= CHUNK_LINES:
+        return validate_piece(trace_path, name, max_viol, module, boundary)
+    pieces, cur = [], []
+    for ln in lines:
+        if boundary in ln and len(cur) >= CHUNK_LINES:
+            pieces.append(cur); cur = []
+        cur.append(ln)
+    if cur:
+        pieces.append(cur)
+    total, rejected, states = 0, [], 0
+    for k, piece in enumerate(pieces):
+        pp = os.path.join(vf.WORK, "tlc", "%s_piece%d.ndjson" % (name, k))
+        os.makedirs(os.path.dirname(pp), exist_ok=True)
+        open(pp, "w").write("\n".join(piece) + "\n")
+        n, rej, st = validate_piece(pp, "%s_p%d" % (name, k), max_viol - len(rejected), module, boundary)
+        os.remove(pp)
+        total += n; rejected += rej; states += st
+        if len(rejected) >= max_viol:
+            break
+    return len(lines), rejected, states
+
+
+def validate_piece(trace_path, name, max_viol=5, module="ConcTrace", boundary='"reset"'):
     """Validate a concatenation of executions; on a rejection record it and go on with the rest.
     Returns (n_events, list of rejected executions [{x, events, unmatched}], states)."""
     lines = open(trace_path).read().splitlines()
